@@ -385,7 +385,8 @@ theorem trie_rangeOK (cls : List Cluster) (hcls : ∀ cl ∈ cls, ∀ g ∈ cl, 
 
 /-- a property of the inserted grapheme and of every widened label is a property of every label afterwards -/
 theorem step_labels_r (P : Grapheme → Prop) (d : Dfa) (cur : Nat) (g : Grapheme) (hg : P g) (hd : ∀ e ∈ d.edges, P e.label)
-    (hw : ∀ e ∈ d.edges, e.label.chars = g.chars → P (Grapheme.mk g.chars [] (Nat.min e.label.min g.min) (Nat.max e.label.max g.max))) :
+    (hw : ∀ e ∈ d.edges, e.label.chars = g.chars → e.label.max = g.max - 1 →
+      P (Grapheme.mk g.chars [] (Nat.min e.label.min g.min) (Nat.max e.label.max g.max))) :
     ∀ e ∈ (step d cur g).1.edges, P e.label := by
   unfold step
   cases hf : findNext g (d.outEdges cur) with
@@ -399,16 +400,17 @@ theorem step_labels_r (P : Grapheme → Prop) (d : Dfa) (cur : Nat) (g : Graphem
     obtain ⟨nxt, o⟩ := r
     obtain ⟨e0, he0, _, hch, hcase⟩ := findNext_some g _ nxt o hf
     obtain ⟨hee0, _⟩ := (mem_outEdges' d cur e0).mp he0
-    rcases hcase with ⟨rfl, _⟩ | ⟨rfl, _⟩
+    rcases hcase with ⟨rfl, _⟩ | ⟨rfl, hwid⟩
     · exact hd
     · intro x hx
       obtain ⟨x0, hx0, rfl⟩ := (mem_updateEdge _ _ _ _ _).mp hx
       split
-      · exact hw e0 hee0 hch
+      · exact hw e0 hee0 hch hwid
       · exact hd x0 hx0
 
 theorem trie_labels_r (P : Grapheme → Prop)
-    (hw : ∀ a g : Grapheme, P a → P g → a.chars = g.chars → P (Grapheme.mk g.chars [] (Nat.min a.min g.min) (Nat.max a.max g.max)))
+    (hw : ∀ a g : Grapheme, P a → P g → a.chars = g.chars → a.max = g.max - 1 →
+      P (Grapheme.mk g.chars [] (Nat.min a.min g.min) (Nat.max a.max g.max)))
     (cls : List Cluster) (hcls : ∀ cl ∈ cls, ∀ g ∈ cl, P g) : ∀ e ∈ (trie cls).edges, P e.label := by
   have hfold : ∀ (cl : Cluster), (∀ g ∈ cl, P g) → ∀ (acc : Dfa × Nat), (∀ e ∈ acc.1.edges, P e.label) →
       ∀ e ∈ (cl.foldl insertFold acc).1.edges, P e.label := by
@@ -421,7 +423,7 @@ theorem trie_labels_r (P : Grapheme → Prop)
       apply ih (fun x hx => hcl x (List.mem_cons_of_mem _ hx))
       have hg := hcl g List.mem_cons_self
       exact step_labels_r P { acc.1 with alphabet := alphaInsert g acc.1.alphabet } acc.2 g hg h
-        (fun e he hc => hw e.label g (h e he) hg hc)
+        (fun e he hc hm => hw e.label g (h e he) hg hc hm)
   have hins : ∀ (d : Dfa) (cl : Cluster), (∀ g ∈ cl, P g) → (∀ e ∈ d.edges, P e.label) → ∀ e ∈ (insert d cl).edges, P e.label := by
     intro d cl hcl hd
     rw [insert_eq]
